@@ -26,6 +26,7 @@ type c07op struct {
 	ingress  uint8
 	from     int
 	d        int
+	omit     bool // the record lacks an element the aggregator needs: the ingest call fails part-way
 }
 
 type c07flow struct {
@@ -73,6 +74,10 @@ func c07Ops(nkeys int, full bool) []c07op {
 				ops = append(ops, c07op{name: fmt.Sprintf("Rec(k%d,inter,%s,egress=%s,ingress=%s)", k, fn, an[a[0]], an[a[1]]), kind: 'r', key: k, flowType: 2, egress: a[0], ingress: a[1], from: from})
 			}
 		}
+	}
+	for k := 0; k < nkeys; k++ {
+		ops = append(ops, c07op{name: fmt.Sprintf("Rec(k%d,inter,dst,egress=allow,ingress=none, without httpVals: ingest fails part-way)", k), kind: 'r', key: k, flowType: 2, egress: 1, from: aggfix.Dst, omit: true},
+			c07op{name: fmt.Sprintf("Rec(k%d,inter,src,egress=allow,ingress=none, without httpVals: ingest fails part-way)", k), kind: 'r', key: k, flowType: 2, egress: 1, from: aggfix.Src, omit: true})
 	}
 	ops = append(ops, c07op{name: "Adv(5)", kind: 'a', d: 5}, c07op{name: "Adv(7)", kind: 'a', d: 7}, c07op{name: "Scan", kind: 's'})
 	return ops
@@ -155,11 +160,37 @@ func (s *c07sys) Apply(opi int) (v *xplore.Violation) {
 	case 'a':
 		vsched.SeqAdvance(time.Duration(op.d) * unit)
 	case 'r':
+		if _, held := s.model[op.key]; op.omit && !held {
+			return nil // the faulty record is only meaningful against an existing flow
+		}
 		s.count++
-		rec := aggfix.Record(c07spec(op, s.count))
+		sp := c07spec(op, s.count)
+		sp.OmitHTTPVals = op.omit
+		rec := aggfix.Record(sp)
 		incoming := corrValues(rec)
-		if err := s.ap.AggregateMsgByFlowKey(aggfix.Msg(rec)); err != nil {
+		err := s.ap.AggregateMsgByFlowKey(aggfix.Msg(rec))
+		if err != nil && !op.omit {
 			return xplore.V("aggregate-error", "%s: %v", op.name, err)
+		}
+		if op.omit {
+			// both sides have now been received if this record came from the other node: the flow must be
+			// ready and filled whether or not the statistics could be merged; deadlines follow the implementation
+			f := s.model[op.key]
+			if !f.ready && op.from != f.first {
+				for name, val := range incoming {
+					if !emptyCorr(val) {
+						f.corr[name] = val
+					}
+				}
+				f.ready, f.filled = true, true
+			}
+			snap := s.ap.VerifSnapshot()
+			for _, h := range snap.Heap {
+				if s.keyIdx[h.Key] == op.key {
+					f.act, f.inact = h.Active, h.Inactive
+				}
+			}
+			break
 		}
 		req := c07required(op)
 		f, ok := s.model[op.key]
